@@ -92,6 +92,10 @@ type GenKnobs struct {
 	// the genesis runtime (roothash.SubmitMsg).
 	RtMaxInMessages uint32 `json:"rt_max_in_messages,omitempty"`
 	RtMinInMsgFee   uint64 `json:"rt_min_in_msg_fee,omitempty"`
+	// Vaults is the number of funded genesis vaults (see addGenesisVaults); VaultGas, when not zero,
+	// replaces the default vault gas costs (10000 / 5000 / 5000) by VaultGas+1..3.
+	Vaults   int    `json:"vaults,omitempty"`
+	VaultGas uint64 `json:"vault_gas,omitempty"`
 }
 
 // World holds the deterministic key material and derived identities of a scenario.
@@ -355,6 +359,9 @@ func BuildWorld(k GenKnobs) (*World, error) {
 			acct.General.Nonce = k.AccountNonce[i]
 		}
 		st.Ledger[addr] = acct
+	}
+	if k.Vaults > 0 || k.VaultGas > 0 {
+		addGenesisVaults(w, doc, &st, add)
 	}
 	st.TotalSupply = *total
 	doc.Staking = st
